@@ -240,6 +240,18 @@ def run(ctx, name, kind, **kw):
                 m *= rng.choice(small)
             for n in (m * p * q * r_, p * q * r_, m * p * qr * q):
                 chk_factor(ctx, n, "factorization.near_balanced", key="%d" % n.bit_length())
+        # powers of neighbouring primes just above the small-prime table (twin primes included): q1^a * q2^b, with and without a smooth part
+        q1 = 1229
+        for _ in range(kw["count"] * 3):
+            q1 = nt.next_prime(q1 + rng.randrange(0, 40))
+            q2 = nt.next_prime(q1)
+            for a_, b_ in ((1, 2), (2, 1), (2, 2), (1, 3), (3, 1), (1, 1)):
+                for m in (1, 2 * 3, 1223):
+                    chk_factor(ctx, m * q1 ** a_ * q2 ** b_, "factorization.neighbouring_primes", key="%d|%d|%s" % (a_, b_, "twin" if q2 - q1 == 2 else "gap"))
+        for q1 in (1277, 1289, 1301, 1319, 1427, 1451, 1481, 1487, 1607, 1619):      # lower members of twin pairs
+            if nt.is_prime(q1) and nt.is_prime(q1 + 2):
+                for a_, b_ in ((1, 2), (2, 2), (1, 3), (3, 2)):
+                    chk_factor(ctx, q1 ** a_ * (q1 + 2) ** b_, "factorization.neighbouring_primes", key="twin|%d|%d" % (a_, b_))
     elif kind == "isprime_proth":
         # n = k * 2^m + 1 (n-1 has m trailing zero bits: the number of squarings in Miller-Rabin) for the published exponents of
         # k = 3, 5, 7; every candidate is certified by the reference before it is used
@@ -474,6 +486,31 @@ def run(ctx, name, kind, **kw):
                     ctx.case(cls, key="%s|%d" % (fname, k))
                     ctx.check(got == want, cls + "_wrong", "%s%r = %r, want %d" % (cls, args, got, want), dict(args=args, got=got, want=want),
                               _r(cls, *args))
+        # "any number of arguments": long lists in which ONE position decides the result (every position of lists of 2..40 values,
+        # positions around 255..258, 511..514, 767..771, 1023..1025 and random ones of longer lists), as arguments, list, tuple and generator
+        def long_case(N, i, fname):
+            base, low = 2 * 3 * 1231, 3 * 1231
+            vals = [base] * N
+            vals[i] = low
+            lv = [4] * N
+            lv[i] = 4 * 1237
+            for fn, arr, want, cls in ((NT.gcd, vals, low, "gcd"), (NT.lcm, lv, 4 * 1237, "lcm")):
+                args = {"args": tuple(arr), "list": (list(arr),), "tuple": (tuple(arr),), "generator": ((x for x in arr),)}[fname]
+                ctx.case(cls + ".long", key="%s|%d" % (fname, N if N < 50 else N // 256 * 256))
+                try:
+                    got = fn(*args)
+                except Exception as e:
+                    ctx.violation(cls + "_raises", "%s of %d values (%s) raised %s: %s" % (cls, N, fname, type(e).__name__, e), dict(N=N, i=i, form=fname))
+                    continue
+                ctx.check(got == want, cls + "_wrong", "%s of %d values (%s) in which only the value at position %d %s: %r, want %d" % (cls, N, fname, i, "lowers the gcd" if cls == "gcd" else "raises the lcm", got, want),
+                          dict(N=N, i=i, form=fname, got=got, want=want))
+        forms_ = ("args", "list", "tuple", "generator")
+        for N in list(range(2, 41)):
+            for i in range(N):
+                long_case(N, i, forms_[(N + i) % 4])
+        for N in (300, 600, 800, 1100, 2100):
+            for i in sorted({0, 1, N - 1, N - 2} | {x for x in (254, 255, 256, 257, 258, 510, 511, 512, 513, 514, 767, 768, 769, 770, 771, 1023, 1024, 1025, 2047, 2048, 2049) if x < N} | {rng.randrange(N) for _ in range(6)}):
+                long_case(N, i, forms_[(N + i) % 4])
         # gcd(a, 0) = |a|
         for a in (1, 7, 12, 2 ** 70):
             got = NT.gcd(a, 0)
